@@ -6,6 +6,10 @@
 #pragma once
 
 // ------------------------------------------------------------------------------------------------ ghost monitors
+#ifndef VM_ROOT_HAS_STUB
+#define VM_ROOT_HAS_STUB 0      /* headless roots: state 0 is anonymous and runs no user code */
+#endif
+#define VM_HAS_STUB(s) ((s) != 0 || VM_ROOT_HAS_STUB)
 static bool     g_entered[VM_NS];        // C03: enter/exit alternation
 static uint8_t  g_enter_count[VM_NS], g_exit_count[VM_NS];
 static bool     g_protocol_ok = true;    // set false by any monitor violation that is also asserted at the spot
@@ -47,7 +51,7 @@ struct St : FSM::State {
   }
   void enter(typename Base::PlanControl&) {
     VASSERT(C03, !g_entered[ID], "enter and exit strictly alternate, beginning with enter");
-    VASSERT(C03, VM_SPEC[ID].parent < 0 || g_entered[VM_SPEC[ID].parent], "a state is entered after its parent");
+    VASSERT(C03, VM_SPEC[ID].parent < 0 || !VM_HAS_STUB(VM_SPEC[ID].parent) || g_entered[VM_SPEC[ID].parent], "a state is entered after its parent");
     g_entered[ID] = true; ++g_enter_count[ID];
   }
   void reenter(typename Base::PlanControl&) { VASSERT(C03, g_entered[ID], "reenter is delivered only to an entered state"); }
